@@ -15,8 +15,9 @@ EXHAUSTIVE = {'quick': True, 'thorough': True}
 RULE = ('(1) exhaustive: every sentence of depth <= 2 over a tiny vocabulary (A, F/1, G/2, parameters a, b, x, y; ~, &, possibility; '
         'existential quantifier over x or y; open sentences included) x every ordered pair of parameters; (2) Hypothesis sentences of '
         'depth <= 5 over the full vocabulary (all operators and quantifiers, system predicates, subscripts, nested quantifiers sharing '
-        'parameters) x drawn parameter pairs (identical, absent, variable-for-constant included). Pairs whose old parameter is re-bound '
-        'inside the sentence are excluded (the property does not fix that edge; counted). Oracle: reference substitution / '
+        'parameters) x drawn parameter pairs (identical, absent, variable-for-constant included; pairs whose old parameter is also '
+        'bound by a quantifier inside the sentence are included and counted: the statement is read literally -- exactly the '
+        'occurrences as a parameter are replaced). Oracle: reference substitution / '
         'instantiation / negative() / collection of constants, variables, predicates, letters, operators and quantifiers in prefix '
         'order, all computed on the independent nested-tuple walk. Non-trivial = the old parameter occurs at least twice at different '
         'depths; distinct by (sentence, pair).')
@@ -40,7 +41,7 @@ def rebinds(s, p):
 def check_sentence(s, pairs):
     """Returns (violations, info). pairs: list of (new, old)."""
     out = []
-    info = dict(nontrivial=False, excluded=0, subst=0)
+    info = dict(nontrivial=False, excluded=0, subst=0, rebound=0)
 
     def bad(tag, msg):
         fp = f'C15|{tag}'
@@ -91,16 +92,17 @@ def check_sentence(s, pairs):
                 r2 = A.from_lib(x.unquantify(A.to_lib(c)))
                 want = A.instantiate(s, c)
                 if rebinds(s[3], s[2]):
-                    info['excluded'] += 1
-                elif r1 != want or r2 != want:
+                    info['rebound'] += 1
+                if r1 != want or r2 != want:
                     bad('instantiate', f'{A.std(c)} >> sentence gives {A.std(r1)}, substituting in the body gives {A.std(want)}')
             except Exception as e:
                 bad(f'instantiate-raises|{type(e).__name__}', f'instantiation raised {e!r}')
     # substitution
     for new, old in pairs:
         if rebinds(s, old):
-            info['excluded'] += 1
-            continue
+            # the old parameter is also bound by a quantifier inside the sentence: the statement is read literally
+            # (exactly the occurrences as a parameter are replaced, binders are not parameters)
+            info['rebound'] += 1
         info['subst'] += 1
         try:
             r = A.from_lib(x.substitute(A.to_lib(new), A.to_lib(old)))
@@ -152,7 +154,7 @@ def run_exhaustive(shard, acc):
         if i % shard['n'] != shard['k']:
             continue
         res, info = check_sentence(s, pairs)
-        acc.excluded += info['excluded']
+        acc.count('pairs-with-rebound-old-parameter', info['rebound'])
         acc.case(('exh', s), nontrivial=info['nontrivial'], classes=('exhaustive',),
                  sample=f'{A.std(s)} x {len(pairs)} parameter pairs' if info['nontrivial'] else None)
         acc.extra['substitutions'] = acc.extra.get('substitutions', 0) + info['subst']
@@ -186,7 +188,7 @@ def run_random(shard, acc):
             new = old if data.draw(st.integers(0, 5)) == 0 else allp[data.draw(st.integers(0, len(allp) - 1))]
             pairs.append((new, old))
         res, info = check_sentence(s, pairs)
-        acc.excluded += info['excluded']
+        acc.count('pairs-with-rebound-old-parameter', info['rebound'])
         acc.case(('rand', s, pairs), nontrivial=info['nontrivial'], classes=('random',),
                  sample=f'{A.std(s)} with ' + ', '.join(f'{A.std(n)}/{A.std(o)}' for n, o in pairs))
         acc.extra['substitutions'] = acc.extra.get('substitutions', 0) + info['subst']
